@@ -15,11 +15,13 @@ Valid     == (1..9) \cup (20..98)    \* ordinary items (the model checker uses 1
 Coercible == 11..19      \* 11 |-> 1 ... : e.g. "1" under an int-casting validator
 Invalid   == {99}
 AnyItem   == Valid \cup Coercible \cup Invalid
-VModes    == {"id", "coerce", "strict"}
+VModes    == {"id", "coerce", "strict", "once"}
 
 \* "id": no validation; "coerce": casts Coercible items; "strict": only Valid items
-Accepts(vm, x) == vm = "id" \/ x \in Valid \/ (vm = "coerce" /\ x \in Coercible)
-V(vm, x)       == IF vm = "coerce" /\ x \in Coercible THEN x - 10 ELSE x
+\* "once": a validator that is NOT idempotent - it converts the raw (coercible) form and rejects everything else,
+\* also what it produced itself: the items of the list are valid, yet validating them AGAIN would fail
+Accepts(vm, x) == vm = "id" \/ (vm \in {"coerce", "strict"} /\ x \in Valid) \/ (vm \in {"coerce", "once"} /\ x \in Coercible)
+V(vm, x)       == IF vm \in {"coerce", "once"} /\ x \in Coercible THEN x - 10 ELSE x
 AllOK(vm, xs)  == \A i \in 1..Len(xs) : Accepts(vm, xs[i])
 VSeq(vm, xs)   == [i \in 1..Len(xs) |-> V(vm, xs[i])]
 
@@ -147,7 +149,9 @@ Apply(op, s, vm, a, xs) ==
     [] op = "sort"      -> OpSort(s, a[1], a[2])
     [] op = "clear"     -> OpClear(s)
     [] op = "construct" -> OpConstruct(vm, xs)
-    [] op = "copy"      -> Ok(s, None)            \* copy / deepcopy / pickle round trip: equal list
+    \* copy / deepcopy / pickle round trip: an equal list (C05 says nothing about copies: whether making one validates
+    \* the items again - which a validator that is not idempotent then refuses - is left open)
+    [] op = "copy"      -> IF vm = "once" THEN [post |-> s, ret |-> None, excs |-> {"", "TraitError"}] ELSE Ok(s, None)
 Ops == {"setitem", "setslice", "delitem", "delslice", "append", "extend", "iadd", "imul", "insert",
         "pop", "remove", "reverse", "sort", "clear", "construct", "copy"}
 
